@@ -182,6 +182,24 @@ def allLindblad (v : Variant) (sq : α → α) (nm : Option (NoiseModel α)) (n 
     let parts ← (nm.types.filter (fun t => !t.isNonLindblad)).mapM (fun nt => getLindblad v sq nt nm it n)
     pure parts.flatten
 
+/-- `NoiseModel()` — no channel at all. -/
+def NoiseModel.empty : NoiseModel α :=
+  { types := [], relaxRate := 0, dephRate := 0, depolRate := 0, hyperfineNonzero := false,
+    effRates := [], effOps := [] }
+
+/-- `PulserData.__init__`: the noise model in effect —
+`sequence.device.default_noise_model if config.prefer_device_noise_model else config.noise_model`,
+replaced by `NoiseModel()` when falsy (`None`). This is also the model handed to `HamiltonianData`. -/
+def effectiveModel (prefer : Bool) (device config : Option (NoiseModel α)) : NoiseModel α :=
+  match (if prefer then device else config) with
+  | some m => m
+  | none => NoiseModel.empty
+
+/-- `PulserData.__init__`: `self.lindblad_ops = _get_all_lindblad_noise_operators(self.noise_model, …)`. -/
+def pulserDataLindblad (v : Variant) (sq : α → α) (prefer : Bool) (device config : Option (NoiseModel α))
+    (n : Nat) (it : Interact) : Except Err (List (Mat n α)) :=
+  allLindblad v sq (some (effectiveModel prefer device config)) n it
+
 end code
 
 /-! ### Specification side -/
